@@ -1,8 +1,9 @@
 #!/bin/sh
-# runs every claimed check once (tier $1, default quick) and prints one line per property
-cd /verif
+# runs every claimed check once (tier $1, default quick; optional $2 = space-separated property ids) and prints one line per property
+cd "$(dirname "$0")"
 TIER=${1:-quick}
-for p in $(python3 -c "import json;print(' '.join(c['property_id'] for c in json.load(open('MANIFEST.json'))['checks']))"); do
+PROPS=${2:-$(python3 -c "import json;print(' '.join(c['property_id'] for c in json.load(open('MANIFEST.json'))['checks']))")}
+for p in $PROPS; do
   s=$(date +%s); out=$(./check $p $TIER 2>&1); rc=$?; e=$(date +%s)
   echo "$p rc=$rc $((e-s))s $(echo "$out" | grep -c '^KNOWN-FINDING') known $(echo "$out" | grep '^VIOLATION' | head -2 | tr '\n' ' ') | $(echo "$out" | tail -1)"
 done
